@@ -18,6 +18,8 @@ func checkC17(tier string, seed int64) int {
 	c.Eng.Cfg = map[string]int{"c17_steps": steps}
 	c.Eng.MaxPaths = 3_000_000
 	c.Eng.MaxSteps = 6_000_000
+	// Go's map iteration order is unspecified: the type-merging step of a reload is explored in both orders
+	c.Eng.MapOrderHook = gosx.ReverseMapRangesIn("syncFields")
 	agg := NewAgg()
 	rep := c.Eng.ExploreWith(func(ex *gosx.Exec) {
 		ex.InitPackage(c.Eng.Pkg)
@@ -30,6 +32,6 @@ func checkC17(tier string, seed int64) int {
 	c.Sample(map[string]interface{}{"history_steps": steps, "paths": rep.Paths, "paths_by_end": rep.ByEnd, "assertions_discharged": rep.Asserts, "failures": len(rep.Failures), "wall_s": rep.Wall.Seconds()})
 	c.confirmLemmaFailures([]lemmaResult{{Name: "verifC17", Report: rep, Failures: rep.Failures}}, func(id string) string { return "reload obligation " + strings.TrimPrefix(id, "C17/") + " fails" })
 	agg.Into(c, "")
-	c.Assumption("histories: initial load of one of 3 versions, then c17_steps actions each chosen symbolically among {reload any version (incl. the same), call the entry point, capture a function value, call the captured function value, create an instance, capture a bound method, call the bound method and a method on the old instance, mutate an initialised package variable}, then a final entry-point call; call arguments symbolic; versions differ in function and method bodies and in a variable initialiser; the expected values are the harness's model of the property text (32-bit wrap-around arithmetic)")
+	c.Assumption("histories: initial load of one of 3 versions, then c17_steps actions each chosen symbolically among {reload any version (incl. the same), call the entry point, capture a function value, call the captured function value, create an instance, capture a bound method, call the bound method and a method on the old instance, mutate an initialised package variable}, then a final entry-point call; call arguments symbolic; versions differ in function and method bodies, in a variable initialiser and (the third) in three additional struct fields; ranges over Go maps inside syncFields are explored in insertion and in reverse order; the expected values are the harness's model of the property text (32-bit wrap-around arithmetic)")
 	return c.Finish(false)
 }
